@@ -13,7 +13,7 @@ cd $WT
 DEMO=$(ls $DIR/demo_*.rs | head -1); NAME=$(basename $DEMO .rs)
 cp $DEMO rust/$CRATE/tests/$NAME.rs
 echo "== demo without patch"
-cargo nextest run -p $CRATE --test $NAME --offline --no-fail-fast 2>&1 | grep -E "Summary|FAIL|error" | head -20
+cargo nextest run -p $CRATE ${FEATURES:-} --test $NAME --offline --no-fail-fast 2>&1 | grep -E "Summary|FAIL|error" | head -20
 rm rust/$CRATE/tests/$NAME.rs
 echo "== apply patch"
 git apply $DIR/patch.diff || { echo "PATCH DOES NOT APPLY"; cd /; git -C /repo worktree remove --force $WT; exit 1; }
@@ -22,7 +22,7 @@ echo "== suite with patch"
 cargo nextest run --workspace --no-fail-fast --test-threads 8 --offline 2>&1 | grep -E "Summary|^\s+FAIL|error(\[|:)" | head -20
 cp $DEMO rust/$CRATE/tests/$NAME.rs
 echo "== demo with patch"
-cargo nextest run -p $CRATE --test $NAME --offline --no-fail-fast 2>&1 | grep -E "Summary|^\s+FAIL|error(\[|:)" | head -20
+cargo nextest run -p $CRATE ${FEATURES:-} --test $NAME --offline --no-fail-fast 2>&1 | grep -E "Summary|^\s+FAIL|error(\[|:)" | head -20
 cd /
 git -C /repo worktree remove --force $WT
 rm -rf $WT
